@@ -3,6 +3,8 @@
 # (/tmp/seed/clean, O2P_REPO) instead of /repo, so that runs going on against /repo are not disturbed.
 set -u
 name=$1; prop=$2; wt=${3:-/tmp/seed/$name}
+clean=${CLEAN_WT:-/tmp/seed/clean}
+[ -d "$clean" ] || git -C /repo worktree add -q --detach "$clean" HEAD   # the clean scratch worktree the check runs against
 out=/verif/seeded/$name
 mkdir -p "$out"
 SEED_PYTHONPATH="$wt:/tmp/seed/shim" /verif/tools/confirm_seed.sh "$name" "$wt" > "$out/confirm.log" 2>&1
